@@ -266,6 +266,21 @@ pub fn run_c10(out: &mut Out, tier: &str, seed: u64) {
             out.case("pwhash.str_verify", &[b(sx.as_bytes()), b(&wrong)], &v.map(|_| vec![]), true);
         }
     }
+    // memory costs around and above 2^22 KiB (4 GiB in bytes: beyond u32 once multiplied by 1024) and up to the
+    // largest the string format holds; parsing and re-encoding hashes nothing
+    for alg in ["argon2i", "argon2id"] {
+        for m in [4194303u64, 4194304, 4194305, 6291456, 8388608, 8388609, 2147483648, 4294967294, 4294967295] {
+            for t in [1u64, 3, 4294967295] {
+                let s = format!("${}$v=19$m={},t={},p=1$c2FsdHNhbHRzYWx0c2FsdA$AAECAwQFBgcICQoLDA0ODxAREhMUFRYXGBkaGxwdHh8", alg, m, t);
+                out.search_evaluations += 1;
+                model_cases(out, &s, true);
+                match guard(|| VecPwHash::from_string(&s)) {
+                    Outcome::Ok(p) => { let re = p.to_string(); if re != s { out.hit(&format!("pwhash.reencode.changes-string.{}.large-memory", alg), format!("{} -> {}", s, re), json!({"op":"obj.PwHash.from_string+to_string","string":s,"reencoded":re})); } }
+                    other => out.hit("obj.pwhash.from_string.rejects-valid-string.large-memory", format!("class {}", other.class()), json!({"string":s})),
+                }
+            }
+        }
+    }
     // grammar-built canonical strings of both algorithms re-encode to themselves (no hashing needed)
     for (class, s) in grammar(&mut rng, if thorough { 200 } else { 40 }) {
         if class != "valid" { continue; }
